@@ -283,14 +283,24 @@ fn points(mode: &str, sw: i64, sh: i64) -> Vec<(i32, i32)> {
 fn track(h: &mut u64, changed: &mut u64, before: &mut Vec<u8>, now: &[u8], p: (i32, i32)) {
     *h = mix(*h, p.0 as u32 as u64);
     *h = mix(*h, p.1 as u32 as u64);
-    for (i, (a, b)) in before.iter().zip(now.iter()).enumerate() {
-        if a != b {
-            *h = mix(*h, i as u64);
-            *h = mix(*h, *b as u64);
-            *changed += 1;
+    // chunked comparison (slice equality is a memcmp): only chunks that differ are scanned
+    const CH: usize = 2048;
+    let n = now.len();
+    let mut off = 0;
+    while off < n {
+        let end = (off + CH).min(n);
+        if before[off..end] != now[off..end] {
+            for i in off..end {
+                if before[i] != now[i] {
+                    *h = mix(*h, i as u64);
+                    *h = mix(*h, now[i] as u64);
+                    *changed += 1;
+                    before[i] = now[i];
+                }
+            }
         }
+        off = end;
     }
-    before.copy_from_slice(now);
 }
 
 macro_rules! alias_list {
